@@ -172,14 +172,17 @@ class Spec:
     def truth(self, expr, st: State, depth: int):
         """Three-valued truth of an expression: True / False / None (unknown)."""
         if isinstance(expr, ast.BoolOp):
-            vals = [self.truth(v, st, depth) for v in expr.values]
-            if isinstance(expr.op, ast.And):
-                if any(v is False for v in vals):
-                    return False
-                return True if all(v is True for v in vals) else None
-            if any(v is True for v in vals):
-                return True
-            return False if all(v is False for v in vals) else None
+            # short-circuit like Python: operands after a deciding one are not evaluated (they may be undefined there, e.g.
+            # `limit is not None and size > limit`); an unknown operand does not stop the scan for a deciding later one
+            is_and = isinstance(expr.op, ast.And)
+            unknown = False
+            for v in expr.values:
+                t = self.truth(v, st, depth)
+                if t is (False if is_and else True):
+                    return t
+                if t is None:
+                    unknown = True
+            return None if unknown else is_and
         if isinstance(expr, ast.UnaryOp) and isinstance(expr.op, ast.Not):
             t = self.truth(expr.operand, st, depth)
             return None if t is None else (not t)
